@@ -662,6 +662,7 @@ class World:
         self.sig_handlers = {}      # signal handlers the simulated process installed
         self.threads = _threads.Seam()      # threads the simulated process starts run under a seeded scheduler
         self.sched_base = 0         # run-level seed of that scheduler (explicit in the run's cfg)
+        self.threads_ever = False   # the code under test has started threads in this world
         self.restart(None)
 
     # -- bookkeeping
@@ -838,6 +839,8 @@ class World:
 
     def _note_threads(self):
         n, sw = self.threads.stats()
+        if n:
+            self.threads_ever = True
         if n and not getattr(self.threads.sched, "started_noted", False):
             self.fired("threads-started-by-the-code", n)
             self.fired("thread-switches-decided", sw)
